@@ -14,7 +14,10 @@ TRun == Ev.op = "run"
           /\ Ev.nres <= LimitInForce(S)
           /\ (S.db = "valid" => Ev.matches)                           \* exactly the engine's results, in rank order
           /\ ((S.format \in {"json", "JSON"} /\ Ev.nres > 0) => Ev.jsonok)
-          /\ Ev.histdelta = 1 /\ Ev.histlast)                         \* one newest history entry, for this query
+          /\ Ev.histdelta = 1 /\ Ev.histlast                          \* one newest history entry, for this query
+          /\ Ev.histcount = Ev.nres)                                  \* ... and for this answer
+    \* the same search repeated at once with --limit 1: the newest entry describes the repetition, nothing else is added
+    /\ (Ev.rep => (Ev.rephistlen \in {1, 2} /\ Ev.rephistlast /\ Ev.rephistcount = Ev.repnres /\ Ev.repnres <= 1))
     /\ ((IsSearch /\ ~Accepted) => (Ev.nres = 0 /\ Ev.histdelta = 0))
     /\ (~IsSearch => Ev.histdelta = 0)
     /\ (S.color \in {"flag", "env"} => ~Ev.esc)                        \* no terminal escape sequences when colour is off
